@@ -383,6 +383,14 @@ func e2eChild(c *vkit.Ctx) {
 		}
 		sc.Gens = []e2e.GenSpec{{Conns: cs, UpScript: [][]upstream.Step{{{Kind: "refuse", DelayMs: 400}}}, WaitAcked: true},
 			{UpScript: make([][]upstream.Step, 1), WaitAcked: true}}
+		if idx >= 1000 {
+			// the same with two outputs of which only the SECOND is refusing: the first output's queue directory is empty at the
+			// reload, the key set's chunks are queued under the second output's root only (seeded c17-s6: queue ids scanned from
+			// the first output's root alone)
+			sc.Outputs = 2
+			sc.Gens = []e2e.GenSpec{{Conns: cs, UpScript: [][]upstream.Step{nil, {{Kind: "refuse", DelayMs: 400}}}, WaitAcked: true},
+				{UpScript: make([][]upstream.Step, 2), WaitAcked: true}}
+		}
 		nReload = 1
 	}
 	plan := []variant{}
